@@ -24,6 +24,9 @@ type C06Case struct {
 	ReadJobs    uint       `json:"read_jobs"`
 	WriteSizes  []int      `json:"write_sizes,omitempty"` // partition of the plain data into Write calls
 	EOFWithData bool       `json:"eof_with_data,omitempty"`
+	// Cut > 0: the compressed stream is truncated after Cut per mille of its bytes; what the reader delivers before it
+	// reports the damage (and that it reports it) must not depend on the Read buffer lengths nor on the source's pieces
+	Cut int `json:"cut,omitempty"`
 }
 
 type c06Out struct {
@@ -59,6 +62,39 @@ func runC06(r *vrt.Run, c C06Case) (o c06Out) {
 	if err != nil || !bytes.Equal(refOut, data) {
 		// the unchunked round trip itself fails: not an I/O granularity matter (C01 owns it, e.g. known finding KF-14)
 		r.Label("skipped:plain-roundtrip-fails")
+		return
+	}
+	if c.Cut > 0 && len(ref) > 2 {
+		cut := 1 + (len(ref)-2)*(c.Cut%1000)/1000
+		drain := func(src *fio.Source, bufs []int) (out []byte, err error) {
+			e := guard(func() error {
+				rd, e := NewReaderFor(src, c.Cfg, c.ReadJobs)
+				if e != nil {
+					return fmt.Errorf("reader ctor: %w", e)
+				}
+				defer rd.Close()
+				var e2 error
+				out, e2 = Drain(rd, bufs)
+				return e2
+			})
+			return out, e
+		}
+		outA, errA := drain(fio.NewSource(ref[:cut]), nil)
+		srcB := &fio.Source{Data: ref[:cut], Sizes: c.SrcSizes, EOFWithData: c.EOFWithData}
+		outB, errB := drain(srcB, c.ReadBufs)
+		o.minPiece, o.unaligned = srcB.MinPiece, srcB.Unaligned
+		o.nontrivial = len(data) >= 64 && (srcB.Unaligned > 0 || len(c.ReadBufs) > 0)
+		if isPanic(errA) || isPanic(errB) {
+			o.msg = fmt.Sprintf("stream truncated at %d/%d bytes: Read faulted: %v / %v", cut, len(ref), errA, errB)
+			return
+		}
+		if (errA == nil) != (errB == nil) {
+			o.msg = fmt.Sprintf("stream truncated at %d/%d bytes: read in one piece with 64 KiB buffers the reader ends with %v, read through pieces %v with buffers %v it ends with %v", cut, len(ref), errA, clipInts(c.SrcSizes, 8), clipInts(c.ReadBufs, 8), errB)
+			return
+		}
+		if len(outA) != len(outB) || !bytes.Equal(outA, outB) {
+			o.msg = fmt.Sprintf("stream truncated at %d/%d bytes: %d bytes are delivered before the error with 64 KiB buffers from an always-filling source, %d bytes with buffers %v and source pieces %v: the result depends on the I/O granularity", cut, len(ref), len(outA), len(outB), clipInts(c.ReadBufs, 8), clipInts(c.SrcSizes, 8))
+		}
 		return
 	}
 	// decode side: chunking source + drawn Read buffer lengths
@@ -165,6 +201,17 @@ func TestC06(t *testing.T) {
 	if r.ReplayOnly() {
 		return
 	}
+	r.Rapid(t, "truncated-stream-histories", 1200, 40000, func(t *rapid.T) {
+		c := drawC06(t, 16384, 256*1024)
+		c.WriteSizes = nil
+		c.Cut = rapid.IntRange(1, 999).Draw(t, "cut")
+		if len(c.ReadBufs) == 0 {
+			c.ReadBufs = []int{rapid.SampledFrom([]int{1, 1000, 4096, 4097, 10000, 12288}).Draw(t, "rbuf")}
+		}
+		if o := c06Eval(r, c); o.msg != "" {
+			r.Violation(t, "granularity", c, "%s", o.msg)
+		}
+	})
 	r.Rapid(t, "histories", 4000, 120000, func(t *rapid.T) {
 		c := drawC06(t, 32*1024, 256*1024)
 		if o := c06Eval(r, c); o.msg != "" {
